@@ -63,14 +63,22 @@ def name_class_rename(name, rng):
         elif ch.islower():
             out.append(rng.choice("abcdefghijklmnopqrstuvwxyz" if i == 0 or rng.random() > 0.1 else "0123456789"))
         elif ch.isupper():
-            # all-upper names (macros) may carry digits after the first character
-            alldig = rest == rest.upper() and i > 0 and rng.random() < 0.15
-            out.append(rng.choice("0123456789" if alldig else "ABCDEFGHIJKLMNOPQRSTUVWXYZ"))
+            # all-upper names (macros) may carry digits after the first character, and underscores anywhere
+            # as long as a letter remains (`_T_ONE` is as upper-case as `FT_ONE`)
+            allup = rest == rest.upper()
+            alldig = allup and i > 0 and rng.random() < 0.15
+            if allup and not prefix and sum(c.isalpha() for c in rest) > 1 and any(c.isalpha() for c in rest[i + 1:]) and rng.random() < 0.12:
+                out.append("_")
+            else:
+                out.append(rng.choice("0123456789" if alldig else "ABCDEFGHIJKLMNOPQRSTUVWXYZ"))
         elif ch.isdigit():
             out.append(rng.choice("0123456789"))
         else:
             out.append(ch)
     new = prefix + "".join(out)
+    # an upper-case name keeps at least one letter (`_056` is not upper-case any more)
+    if rest == rest.upper() and any(c.isalpha() for c in rest) and not any(c.isalpha() for c in "".join(out)):
+        return name
     # never create one of the five prefixes by accident
     if not prefix and new[:2] in ("g_", "s_", "t_", "u_", "e_"):
         return name
@@ -125,6 +133,7 @@ def renaming(src, name, rng, keywords):
 # ---------------------------------------------------------------- C17: same-width replacement
 
 CODE = "abcxyzABZ019 ;,(){}[]+-*/=<>!&|?:#_.%"
+CLASSES = ["abcdefghijklmnopqrstuvwxyz", "ABCDEFGHIJKLMNOPQRSTUVWXYZ", "0123456789", ";{}()+-=,", ";", "return(n);", " ", "a ", "_", "x"]
 ALT_SPELLINGS = ["<:", ":>", "<%", "%>", "%:", "??<", "??>", "??(", "??)", "??=", "??!", "??-", "%:%:"]
 
 
@@ -183,6 +192,11 @@ def swap_one(src, rng, header_lines=0):
                 if len(sp) < len(new):
                     k = rng.randrange(len(new) - len(sp) + 1)
                     new = new[:k] + sp + new[k + len(sp):]
+        # one character class only: a rule that looks for "a word", "a blank", "a lower-case letter" in the
+        # text sees a different answer although nothing but the text changed
+        if rng.random() < 0.3:
+            cls = rng.choice(CLASSES)
+            new = "".join(rng.choice(cls) for _ in range(b - a))
         if "??/" in new or "\\" in new or (what == "string" and '"' in new) or (what == "char" and "'" in new):
             continue
         if what == "block" and ("*/" in new or new.endswith("*") and False or "/*" in new and False):
@@ -194,6 +208,21 @@ def swap_one(src, rng, header_lines=0):
             continue
         break
     return src[:a] + new + src[b:], {"what": what, "old": src[a:b], "new": new, "line": line_of_offset(src, a)}
+
+
+def class_swaps(src, rng, header_lines=0):
+    """every candidate (comment / string / character constant) x every character class: the text is replaced
+    by text of one class only (lower-case, upper-case, digits, punctuation, words with blanks)"""
+    cands = swap_one(src, rng, header_lines=(header_lines, "all"))
+    out = []
+    for a, b, extra, what in cands or []:
+        for cls in ("abcdefghijklmnopqrstuvwxyz", "ABCDEFGHIJKLMNOPQRSTUVWXYZ", "0123456789", ";{}()+-=,", "ab "):
+            new = "".join(rng.choice(cls) for _ in range(b - a))
+            if what == "char" and new == " " and False:
+                continue
+            if new != src[a:b]:
+                out.append((src[:a] + new + src[b:], {"what": what, "old": src[a:b], "new": new, "line": line_of_offset(src, a)}))
+    return out
 
 
 SHAPES_SUFFIX = ["??", "?", "/", "*", "(", "{", ";", "?:", "%", "<", ":", "??/"[:2], "'", '"']
